@@ -212,8 +212,8 @@ func init() {
 			return nil
 		}
 	}
-	reg(&target{name: "sql.tokenizer.mysql", group: "sql", gen: sqlGen, run: tokenize(myD)})
-	reg(&target{name: "sql.tokenizer.postgresql", group: "sql", gen: sqlGen, run: tokenize(pgD)})
+	reg(&target{name: "sql.tokenizer.mysql", group: "sql", gen: sqlGen, run: tokenize(myD), allocPerByte: 8000})
+	reg(&target{name: "sql.tokenizer.postgresql", group: "sql", gen: sqlGen, run: tokenize(pgD), allocPerByte: 8000})
 	parse := func(d dialect.Dialect) func(in []byte) error {
 		return func(in []byte) error {
 			stmt, err := sqlparser.ParseWithDialect(d, string(in))
@@ -230,9 +230,9 @@ func init() {
 			return nil
 		}
 	}
-	reg(&target{name: "sql.parse.mysql", group: "sql", gen: sqlGen, run: parse(myD)})
-	reg(&target{name: "sql.parse.mysql-ansi", group: "sql", gen: sqlGen, run: parse(myANSI)})
-	reg(&target{name: "sql.parse.postgresql", group: "sql", gen: sqlGen, run: parse(pgD)})
+	reg(&target{name: "sql.parse.mysql", group: "sql", gen: sqlGen, allocPerByte: 8000, calls: 2, run: parse(myD)})
+	reg(&target{name: "sql.parse.mysql-ansi", group: "sql", gen: sqlGen, allocPerByte: 8000, calls: 2, run: parse(myANSI)})
+	reg(&target{name: "sql.parse.postgresql", group: "sql", gen: sqlGen, allocPerByte: 8000, calls: 2, run: parse(pgD)})
 	handleRaw := func(d dialect.Dialect) (func() error, func(in []byte) error) {
 		strict := sqlparser.New(sqlparser.ModeStrict)
 		lax := sqlparser.New(sqlparser.ModeDefault)
@@ -244,17 +244,16 @@ func init() {
 		}
 	}
 	s1, r1 := handleRaw(myD)
-	reg(&target{name: "sql.handle-raw-query.mysql", group: "sql", gen: sqlGen, setup: s1, run: r1})
+	reg(&target{name: "sql.handle-raw-query.mysql", group: "sql", gen: sqlGen, allocPerByte: 8000, calls: 3, setup: s1, run: r1})
 	s2, r2 := handleRaw(pgD)
-	reg(&target{name: "sql.handle-raw-query.postgresql", group: "sql", gen: sqlGen, setup: s2, run: r2})
-	reg(&target{name: "sql.misc", group: "sql", gen: sqlGen, run: func(in []byte) error {
+	reg(&target{name: "sql.handle-raw-query.postgresql", group: "sql", gen: sqlGen, allocPerByte: 8000, calls: 3, setup: s2, run: r2})
+	reg(&target{name: "sql.misc", group: "sql", gen: sqlGen, allocPerByte: 8000, calls: 4, run: func(in []byte) error {
 		s := string(in)
 		_, _ = sqlparser.SplitStatementToPieces(s)
 		_, _, _ = sqlparser.SplitStatement(s)
 		_ = sqlparser.Preview(s)
 		_ = sqlparser.IsDML(s)
 		_, _, _ = sqlparser.ExtractSetValues(s)
-		_, _ = sqlparser.ExtractMysqlComment(s)
 		_ = sqlparser.StripLeadingComments(s)
 		_, _ = sqlparser.SplitMarginComments(s)
 		tkn := sqlparser.NewStringTokenizer(s)
@@ -270,7 +269,7 @@ func init() {
 
 	// firewall
 	var censor *acracensor.AcraCensor
-	reg(&target{name: "censor.handle-query", group: "sql", gen: sqlGen,
+	reg(&target{name: "censor.handle-query", group: "sql", gen: sqlGen, allocPerByte: 8000,
 		setup: func() error {
 			censor = acracensor.NewAcraCensor()
 			return censor.LoadConfiguration([]byte(censorYAML))
@@ -278,7 +277,7 @@ func init() {
 		run: func(in []byte) error { return censor.HandleQuery(string(in)) }})
 	var fixedQueries []sqlparser.Statement
 	strictParser := sqlparser.New(sqlparser.ModeStrict)
-	reg(&target{name: "censor.patterns", group: "sql",
+	reg(&target{name: "censor.patterns", group: "sql", allocPerByte: 8000, calls: 2,
 		gen: func(g *gen.Rand, _ interface{}, i int) ([]byte, string, string) {
 			if i == 0 {
 				return []byte("SELECT a FROM t WHERE ID = %%VALUE%% AND b IN (%%LIST_OF_VALUES%%)"), "valid", ""
@@ -320,7 +319,7 @@ func init() {
 		}})
 	censorCfgMut := &textMutator{corpus: []string{censorYAML, proxyCensorYAML, "version: 0.85.0\nhandlers:\n  - handler: allowall\n", "version: 0.85.0\nignore_parse_error: true\nhandlers:\n  - handler: deny\n    tables: [a, b]\n    patterns:\n      - \"%%SELECT%%\"\n"},
 		vocab: yamlVocab, bombs: yamlBombs}
-	reg(&target{name: "censor.load-configuration", group: "config",
+	reg(&target{name: "censor.load-configuration", group: "config", allocPerByte: 8000,
 		gen: func(g *gen.Rand, _ interface{}, i int) ([]byte, string, string) {
 			if i == 0 {
 				return []byte(censorYAML), "valid", ""
@@ -380,7 +379,7 @@ func init() {
 	// query rewriting observers of both proxies on hostile SQL text
 	var myQE *encMysql.QueryDataEncryptor
 	var pgQE *encPg.QueryDataEncryptor
-	reg(&target{name: "sql.query-encryptor.mysql", group: "sql", gen: sqlGen,
+	reg(&target{name: "sql.query-encryptor.mysql", group: "sql", gen: sqlGen, allocPerByte: 8000,
 		setup: func() error {
 			w, err := mustWorld()
 			if err != nil {
@@ -396,10 +395,10 @@ func init() {
 		run: func(in []byte) error {
 			w := getWorld()
 			q := encMysql.NewOnQueryObjectFromQuery(string(in), sqlparser.New(sqlparser.ModeDefault))
-			_, _, err := myQE.OnQuery(w.ctxFor(w.ids[0]), q)
+			_, _, err := myQE.OnQuery(w.sessionCtx(w.ids[0]), q)
 			return err
 		}})
-	reg(&target{name: "sql.query-encryptor.postgresql", group: "sql", gen: sqlGen,
+	reg(&target{name: "sql.query-encryptor.postgresql", group: "sql", gen: sqlGen, allocPerByte: 8000,
 		setup: func() error {
 			w, err := mustWorld()
 			if err != nil {
@@ -418,7 +417,7 @@ func init() {
 			if q == nil {
 				return errors.New("nil query object")
 			}
-			_, _, err := pgQE.OnQuery(w.ctxFor(w.ids[0]), q)
+			_, _, err := pgQE.OnQuery(w.sessionCtx(w.ids[0]), q)
 			return err
 		}})
 	_ = context.Background
